@@ -114,6 +114,13 @@ def run(ctx):
     for cid, rng in ctx.cases([('rt', i) for i in range(nrt)]):
         delim = delims[int(rng.integers(len(delims)))]
         d = rand_dict(rng, delim)
+        if cid[1] % 400 == 7:
+            # a long segment (well above 2^16 bytes: block-wise readers, fixed-size buffers): thousands of pairs and a few very
+            # long values, with delimiters placed around the multiples of 65536
+            for _ in range(int(rng.integers(1500, 4000))):
+                d[rand_token(rng, delim, 12)] = rand_token(rng, delim, 40)
+            for _ in range(3):
+                d[rand_token(rng, delim, 12)] = rand_token(rng, delim, 3) + (delim + 'x') * int(rng.integers(5000, 30000))
         supp = bool(rng.integers(2))
         leading = True if not supp else bool(rng.integers(2))
         raw = fcsgen.encode_text(list(d.items()), delim, leading=leading).decode('latin-1')
